@@ -156,8 +156,8 @@ func c10Run(c *core.Ctx) {
 		{"{", ":", ",", "}"},
 		{"{ ", " : ", " , ", " }"},
 		{"{\n  ", ": ", ",\n  ", "\n}\n"},
-		{"{\r\n  ", ": ", ",\r\n  ", "\r\n}\r\n"},       // CRLF, pretty printed
-		{"{\r\n\t", "\t:\t", "\r\n\t, ", "\r\n}"},         // comma first, tabs, CRLF
+		{" \r\n{\r\n  ", ": ", ",\r\n  ", "\r\n}\r\n"}, // CRLF, pretty printed, white space before the document
+		{"\t{\r\n\t", "\t:\t", "\r\n\t, ", "\r\n}"},      // comma first, tabs, CRLF, a tab before the document
 	}
 	render := func(sel []int, lay int, wrapArray bool) {
 		L := layouts[lay]
